@@ -51,8 +51,8 @@ NOTE = "trusts: the syntactic instrumentation preserves behaviour up to scheduli
 
 claimed = [p["id"] for p in props if p["id"] in cfg]
 m = {"version": 1, "setup_cmd": "./verif.py build",
-     "hooks": {"guard": "none - no hook is committed to /repo; instrumentation is applied to a scratch copy of the working tree by /verif/bin/instrument at check time",
-               "enable": "verif.py rsyncs /repo to a scratch dir, runs tools/instrument (go/ast rewrite: go->simrt.Go, sync.Mutex->simrt.Mutex, yields after channel ops, os->simos shim in disk-touching packages, VerifRegOpts in regclient.New), copies harness/ into internal/verif/, builds with go1.26.8 test -c",
+     "hooks": {"guard": "none - no hook is committed to /repo; instrumentation is applied to a scratch copy of the working tree by /verif/tools/instrument (built to /verif/bin/instrument) at check time",
+               "enable": "verif.py rsyncs /repo to a scratch dir, runs tools/instrument (go/ast rewrite: go->simrt.Go, sync.Mutex->simrt.Mutex, yields after channel ops, os->simos shim in disk-touching packages, VerifRegOpts in regclient.New, zstd codec concurrency 1, a generated mod.VerifProcessStart), copies harness/ into internal/verif/, builds with go1.26.8 test -c",
                "baseline_off_cmd": "cd /repo && go test -mod=mod -vet=off -count=1 -timeout 25m ./...", "source_commits": [], "add_only": True},
      "engines": [{"name": "simrt-dst", "path": "/verif/verif.py", "serves_properties": claimed,
                   "kind_free_text": "deterministic simulation with fault injection: seeded scheduler over instrumented goroutines inside a testing/synctest bubble (fake clock), simulated network (http.RoundTripper) with registry models, os shim for the disk, tape-driven search with shrinking and exact replay"}],
